@@ -1,132 +1,27 @@
-(* C10/Model.v -- heap-level transcription of the `_call` bodies of
-   odl/solvers/nonsmooth/proximal_operators.py (with their `x is out` tests and
-   temporaries), of the in-place / out-of-place `_call`s of the operator
-   arithmetic classes of odl/operator/operator.py, of the default operators the
-   proximal factories and solvers combine them with, and of DiagonalOperator.
-   Executable definitions only (run at Q by the correspondence shards, proved
-   at R in Proofs.v).
-
-   Heap: buffer id -> flat array.  An element of a (possibly nested product)
-   space is the list of the ids of its leaf arrays ([ref]); `x is out` is
-   equality of refs.  `space.element()` is [fresh]: it only bumps the
-   allocation counter, so a new buffer contains WHATEVER the heap function had
-   there (arbitrary garbage of arbitrary length).
-   Every library primitive (lincomb, multiply, divide, assign, ufunc with out=,
-   augmented assignment) is "read all operands, then write out": [st1]/[st2].
-   Operator parameters (g, element-valued sigma, bounds, translation vectors)
-   are values, not heap cells. *)
+(* C10/Model.v -- the model of C10.
+   The heap-level programs of the `_call` bodies are NOT written here: they are regenerated from the
+   source on every run by translate/prox_calls.py into Gen/ProxCalls.v (every `_call` of
+   proximal_operators.py with its `x is out` tests, copies and temporaries, `proj_l1`, the proximal
+   classes of IndicatorSimplex / IndicatorSumConstraint, both bodies of the nine expression classes of
+   operator.py and of Scaling/Zero/Constant/MultiplyOperator).  This file only
+     - names the operator classes and their parameters ([leaf], [op]) and dispatches to the generated programs,
+     - adds the three hand-written programs that have no translatable source body: dense MatrixOperator
+       (`matrix.dot(x, out=)`), the default in-place bridge for operators without `out` (`LFun`), and the
+       row loop of DiagonalOperator,
+     - defines the value-level meaning [pure] the theorems compare the programs with.
+   Heap, primitives and value algebra: C10/Prims.v. *)
 From Coq Require Import ZArith List Bool Arith.
 From Verif Require Import Base.Num Base.Vec.
+From Verif Require Export C10.Prims Gen.ProxCalls.
 Import ListNotations.
 Local Open Scope num_scope.
 
-Class Sqrt (T : Type) := { nsqrt : T -> T }.
-
 Section M.
 Context {T : Type} `{Num T} `{Sqrt T}.
-
-(* ------------------------------------------------------------------ heap *)
-Record heap := mkH { mem : nat -> list T; next : nat }.
-Definition ref := list nat.
-Definition val := list (list T).
-
-Definition write (i : nat) (v : list T) (h : heap) : heap :=
-  mkH (fun j => if Nat.eqb j i then v else mem h j) (next h).
-Definition get (h : heap) (r : ref) : val := map (mem h) r.
-Fixpoint put (r : ref) (v : val) (h : heap) : heap :=
-  match r, v with
-  | i :: r', a :: v' => put r' v' (write i a h)
-  | _, _ => h
-  end.
-Definition bump (n : nat) (h : heap) : heap := mkH (mem h) (next h + n).
-Definition fresh (n : nat) (h : heap) : ref * heap := (seq (next h) n, bump n h).
-Definition ref_eqb (a b : ref) : bool := if list_eq_dec Nat.eq_dec a b then true else false.
-
-(* primitives: read the operands, then write [out] *)
-Definition st0 (V : val) (out : ref) (h : heap) : heap := put out V h.
-Definition st1 (F : val -> val) (x out : ref) (h : heap) : heap := put out (F (get h x)) h.
-Definition st2 (F : val -> val -> val) (x y out : ref) (h : heap) : heap :=
-  put out (F (get h x) (get h y)) h.
-(* x.copy() *)
-Definition copy (x : ref) (h : heap) : ref * heap :=
-  let '(t, h1) := fresh (length x) h in (t, st1 (fun a => a) x t h1).
-
-(* ----------------------------------------------------- value-level algebra *)
-(* part-wise zip: the shape (number of parts) is that of the first operand *)
-Fixpoint pzip (f : list T -> list T -> list T) (a b : val) : val :=
-  match a with
-  | [] => []
-  | u :: a' => f u (hd [] b) :: pzip f a' (tl b)
-  end.
-Definition e1 (f : T -> T) : val -> val := map (map f).
-Definition e2 (f : T -> T -> T) : val -> val -> val := pzip (vmap2 f).
-Definition lin (a b : T) : val -> val -> val := e2 (fun u v => a * u + b * v).
-Definition scal (a : T) : val -> val := e1 (fun u => a * u).
-Definition zeros_like : val -> val := e1 (fun _ => nzero).
-Definition one : T := none_.
-Definition two : T := of_Z 2.
-Definition four : T := of_Z 4.
-Definition half : T := ndiv (of_Z 1) (of_Z 2).
-
-(* scalar-or-element step, optional bounds *)
-Inductive sval := Sc (s : T) | El (v : val).
-Inductive bound := BNone | BSc (c : T) | BEl (v : val).
-
-Definition sval_scale (s : sval) (c : T) : sval :=      (* self.sigma * lam *)
-  match s with Sc a => Sc (a * c) | El v => El (scal c v) end.
-Definition idiv_sval (d : val) (s : sval) : val :=        (* d /= s *)
-  match s with Sc c => scal (one / c) d | El v => e2 ndiv d v end.
-Definition max_bound (a : val) (b : bound) : val :=
-  match b with BNone => a | BSc c => e1 (fun u => nmax u c) a | BEl v => e2 nmax a v end.
-Definition min_bound (a : val) (b : bound) : val :=
-  match b with BNone => a | BSc c => e1 (fun u => nmin u c) a | BEl v => e2 nmin a v end.
-
-(* x.norm() on a space whose inner product is  w * sum x_i y_i  *)
-Definition sumsq (v : val) : T := sumf (map (fun a => dot a a) v).
-Definition norm2 (w : T) (v : val) : T := nsqrt (w * sumsq v).
-
-(* PointwiseNorm(vfspace, exponent=2) on an unweighted power space *)
-Definition sq (a : list T) : list T := vmap2 nmul a a.
-Definition pwnorm2 (v : val) : list T :=
-  match v with
-  | [] => []
-  | [a] => map nabs a
-  | a :: rest => map (fun s => nsqrt (nabs s)) (fold_left (fun acc b => vmap2 nadd acc (sq b)) rest (sq a))
-  end.
-
-(* proj_simplex: sort descending, running averages, last index with crit >= 0 *)
-Fixpoint ins_desc (a : T) (l : list T) : list T :=
-  match l with
-  | [] => [a]
-  | b :: l' => if b <=? a then a :: l else b :: ins_desc a l'
-  end.
-Definition sort_desc (l : list T) : list T := fold_right ins_desc [] l.
-(* walk the sorted list with cumulative sum and 1-based index, keep the last avrg with crit >= 0 *)
-Fixpoint simplex_tau (d : T) (l : list T) (cum : T) (j : Z) (best : T) : T :=
-  match l with
-  | [] => best
-  | a :: l' =>
-      let cum' := cum + a in
-      let av := (one / of_Z j) * (cum' - d) in
-      let best' := if nzero <=? a - av then av else best in
-      simplex_tau d l' cum' (j + 1)%Z best'
-  end.
-Definition simplex_val (d : T) (v : val) : val :=
-  let tau := simplex_tau d (sort_desc (concat v)) nzero 1%Z nzero in
-  e1 (fun u => nmax (u - tau) nzero) v.
-Definition sum_all (v : val) : T := sumf (concat v).
-
-(* out[mask] = a[mask]  on flat arrays: shape of [a] *)
-Fixpoint where3 (m : list bool) (a b : list T) : list T :=
-  match a with
-  | [] => []
-  | u :: a' => (if hd false m then u else hd nzero b) :: where3 (tl m) a' (tl b)
-  end.
-Fixpoint pwhere (m : list (list bool)) (a b : val) : val :=
-  match a with
-  | [] => []
-  | u :: a' => where3 (hd [] m) u (hd [] b) :: pwhere (tl m) a' (tl b)
-  end.
+Notation heap := (heap T).
+Notation sval := (sval T).
+Notation bound := (bound T).
+Notation val := (list (list T)).
 
 (* ------------------------------------------------------------- the leaves *)
 Inductive leaf :=
@@ -134,201 +29,23 @@ Inductive leaf :=
 | LL2 (w e1p lam sigma : T) (g : option val)            (* proximal_l2; e1p = 1 + eps *)
 | LCCL2Sq (lam : T) (sigma : sval) (g : option val)     (* proximal_convex_conj_l2_squared *)
 | LL2Sq (lam : T) (sigma : sval) (g : option val)       (* proximal_l2_squared *)
-| LCCL1 (lam sigma : T) (g : option val)                (* proximal_convex_conj_l1; lam already * (1-eps) *)
+| LCCL1 (lam : T) (sigma : sval) (g : option val)       (* proximal_convex_conj_l1; lam already * (1-eps) *)
 | LCCL1L2 (lam sigma : T) (g : option val)              (* proximal_convex_conj_l1_l2 *)
 | LL1 (lam : T) (sigma : sval) (g : option val)         (* proximal_l1 *)
 | LL1L2 (lam sigma : T) (g : option val)                (* proximal_l1_l2 *)
 | LLinf (sigma : T)                                     (* proximal_linfty *)
 | LCCLinf                                               (* proximal_convex_conj_linfty *)
 | LCCKL (lam sigma : T) (g : option val)                (* proximal_convex_conj_kl *)
-| LCCKLCE (lam : T) (W : val -> val)                    (* proximal_convex_conj_kl_cross_entropy; W = lambertw(sigma/lam*g*exp(./lam)) opaque *)
-| LHuber (gamma sigma : T)                              (* proximal_huber on a non-product space *)
+| LCCKLCE (lam : T) (W : val -> val)                    (* proximal_convex_conj_kl_cross_entropy; W = lambertw(...) opaque *)
+| LHuber (pspace : bool) (gamma sigma : T)              (* proximal_huber; pspace = domain is a ProductSpace *)
 | LSimplex (diam : T)                                   (* IndicatorSimplex.proximal *)
+| LSumC (sum_value : T)                                 (* IndicatorSumConstraint.proximal *)
 | LScaling (s : T)                                      (* ScalingOperator / IdentityOperator *)
 | LZero                                                 (* ZeroOperator (domain = range) *)
 | LConst (c : val)                                      (* ConstantOperator *)
 | LMult (m : sval)                                      (* MultiplyOperator *)
 | LMat (m : list (list T))                              (* MatrixOperator (dense, 1-d range; may be non-square inside a composition) *)
-| LFun (F : list (list T) -> list (list T)).            (* any operator whose _call has no `out` (e.g. NuclearNorm proximal): F opaque *)
-
-(* x - g  (LinearSpaceElement.__sub__): tmp = space.element(); lincomb(1, x, -1, g, out=tmp) *)
-Definition sub_param (x : ref) (g : val) (h : heap) : ref * heap :=
-  let '(t, h1) := fresh (length x) h in (t, st1 (fun a => lin one (- one) a g) x t h1).
-
-(* ProximalL1._call *)
-Definition call_l1 (lam : T) (sigma : sval) (g : option val) (x out : ref) (h : heap) : heap :=
-  let '(x', h1) := if ref_eqb x out then copy x h else (x, h) in          (* if x is out: x = x.copy() *)
-  let '(diff, h2) := match g with
-                     | Some gv => sub_param x' gv h1                       (* diff = x - g *)
-                     | None => (x', h1) end in                             (* diff = x *)
-  let '(denom, h3) := fresh (length diff) h2 in
-  let h4 := st1 (e1 nabs) diff denom h3 in                                 (* denom = diff.ufuncs.absolute() *)
-  let h5 := st1 (fun d => idiv_sval d (sval_scale sigma lam)) denom denom h4 in   (* denom /= self.sigma * lam *)
-  let h6 := st1 (e1 (fun u => nmax u one)) denom denom h5 in               (* denom.ufuncs.maximum(1, out=denom) *)
-  let h7 := st2 (e2 ndiv) diff denom out h6 in                             (* diff.ufuncs.divide(denom, out=out) *)
-  st2 (lin one (- one)) x' out out h7.                                     (* out.lincomb(1, x, -1, out) *)
-
-(* ProximalConvexConjL1._call *)
-Definition call_ccl1 (lam sigma : T) (g : option val) (x out : ref) (h : heap) : heap :=
-  let '(diff, h1) :=
-    match g with
-    | Some gv => let '(t, h') := fresh (length x) h in                     (* diff = self.domain.element() *)
-                 (t, st1 (fun a => lin one (- sigma) a gv) x t h')          (* diff.lincomb(1, x, -self.sigma, g) *)
-    | None => if ref_eqb x out then copy x h else (x, h)                   (* elif x is out: diff = x.copy() else diff = x *)
-    end in
-  let h2 := st1 (e1 nabs) diff out h1 in                                   (* diff.ufuncs.absolute(out=out) *)
-  let h3 := st1 (e1 (fun u => nmax u lam)) out out h2 in                   (* out.ufuncs.maximum(lam, out=out) *)
-  let h4 := st1 (scal (one / lam)) out out h3 in                           (* out /= lam *)
-  st2 (e2 ndiv) diff out out h4.                                           (* diff.divide(out, out=out) *)
-
-(* ProximalL2Squared._call *)
-Definition call_l2sq (lam : T) (sigma : sval) (g : option val) (x out : ref) (h : heap) : heap :=
-  match sigma, g with
-  | Sc s, None => st1 (scal (one / (one + two * s * lam))) x out h
-  | Sc s, Some gv => st1 (fun a => lin (one / (one + two * s * lam))
-                                       (two * s * lam / (one + two * s * lam)) a gv) x out h
-  | El sv, None => st1 (fun a => e2 ndiv a (e1 (fun s => one + two * s * lam) sv)) x out h
-  | El sv, Some gv =>
-      let sg := e2 nmul sv (scal (two * lam) gv) in                        (* sig.multiply(2 * lam * g ...) *)
-      let h2 := if ref_eqb x out
-                then let '(tmp, h1) := fresh (length x) h in               (* tmp = sig.multiply(2 * lam * g) *)
-                     let h1' := st0 sg tmp h1 in
-                     st2 (lin one one) x tmp out h1'                       (* out.lincomb(1, x, 1, tmp) *)
-                else let h1 := st0 sg out h in                             (* sig.multiply(2 * lam * g, out=out) *)
-                     st2 (lin one one) x out out h1 in                     (* out.lincomb(1, x, 1, out) *)
-      st1 (fun a => e2 ndiv a (e1 (fun s => one + two * s * lam) sv)) out out h2   (* out.divide(1 + 2*sig*lam, out=out) *)
-  end.
-
-(* ProximalConvexConjL2Squared._call *)
-Definition call_ccl2sq (lam : T) (sigma : sval) (g : option val) (x out : ref) (h : heap) : heap :=
-  match sigma, g with
-  | Sc s, None => st1 (scal (one / (one + half * s / lam))) x out h
-  | Sc s, Some gv => st1 (fun a => lin (one / (one + half * s / lam))
-                                       (- s / (one + half * s / lam)) a gv) x out h
-  | El sv, None => st1 (fun a => e2 ndiv a (e1 (fun s => one + half / lam * s) sv)) x out h
-  | El sv, Some gv =>
-      let sg := e2 nmul sv gv in
-      let h2 := if ref_eqb x out
-                then let '(tmp, h1) := fresh (length x) h in               (* tmp = sig.multiply(g) *)
-                     let h1' := st0 sg tmp h1 in
-                     st2 (lin one (- one)) x tmp out h1'                   (* out.lincomb(1, x, -1, tmp) *)
-                else let h1 := st0 sg out h in                             (* sig.multiply(g, out=out) *)
-                     st2 (lin one (- one)) x out out h1 in                 (* out.lincomb(1, x, -1, out) *)
-      st1 (fun a => e2 ndiv a (e1 (fun s => one + half / lam * s) sv)) out out h2
-  end.
-
-(* ProxOpBoxConstraint._call *)
-Definition call_box (lo hi : bound) (x out : ref) (h : heap) : heap :=
-  match lo, hi with
-  | BNone, BNone => st1 (fun a => a) x out h                               (* out.assign(x) *)
-  | _, BNone => st1 (fun a => max_bound a lo) x out h                      (* x.ufuncs.maximum(lower, out=out) *)
-  | BNone, _ => st1 (fun a => min_bound a hi) x out h                      (* x.ufuncs.minimum(upper, out=out) *)
-  | _, _ => let h1 := st1 (fun a => max_bound a lo) x out h in
-            st1 (fun a => min_bound a hi) out out h1                       (* out.ufuncs.minimum(upper, out=out) *)
-  end.
-
-(* ProximalL2._call *)
-Definition call_l2 (w e1p lam sigma : T) (g : option val) (x out : ref) (h : heap) : heap :=
-  match g with
-  | None =>
-      let xn := norm2 w (get h x) * e1p in                                 (* x_norm = x.norm() * (1 + eps) *)
-      if nzero <? xn then
-        let step := sigma * lam / xn in
-        if step <? one then st1 (scal (one - step)) x out h                (* out.lincomb(1.0 - step, x) *)
-        else st1 zeros_like x out h                                        (* out.set_zero() *)
-      else st1 zeros_like x out h
-  | Some gv =>
-      let '(d, h1) := sub_param x gv h in                                  (* (x - g) *)
-      let xn := norm2 w (get h1 d) * e1p in
-      if nzero <? xn then
-        let step := sigma * lam / xn in
-        if step <? one then st1 (fun a => lin (one - step) step a gv) x out h1   (* out.lincomb(1.0 - step, x, step, g) *)
-        else st0 gv out h1                                                 (* out.assign(g) *)
-      else st0 gv out h1
-  end.
-
-(* for out_i, diff_i in zip(out, diff): diff_i.divide(denom, out=out_i)   -- sequential over the parts *)
-Definition div_loop (out diff denom : ref) (h : heap) : heap :=
-  fold_left (fun h' od => st2 (e2 ndiv) [snd od] denom [fst od] h') (combine out diff) h.
-(* denom = PointwiseNorm(domain, exponent=2)(diff): out-of-place call, fresh base-space element *)
-Definition pwnorm_call (diff : ref) (h : heap) : ref * heap :=
-  let '(t, h1) := fresh 1 h in (t, st1 (fun a => [pwnorm2 a]) diff t h1).
-
-(* ProximalL1L2._call *)
-Definition call_l1l2 (lam sigma : T) (g : option val) (x out : ref) (h : heap) : heap :=
-  let '(x', h1) := if ref_eqb x out then copy x h else (x, h) in
-  let '(diff, h2) := match g with Some gv => sub_param x' gv h1 | None => (x', h1) end in
-  let '(denom, h3) := pwnorm_call diff h2 in
-  let h4 := st1 (scal (one / (sigma * lam))) denom denom h3 in             (* denom /= self.sigma * lam *)
-  let h5 := st1 (e1 (fun u => nmax u one)) denom denom h4 in               (* denom.ufuncs.maximum(1, out=denom) *)
-  let h6 := div_loop out diff denom h5 in
-  st2 (lin one (- one)) x' out out h6.                                     (* out.lincomb(1, x, -1, out) *)
-
-(* ProximalConvexConjL1L2._call *)
-Definition call_ccl1l2 (lam sigma : T) (g : option val) (x out : ref) (h : heap) : heap :=
-  let '(diff, h1) :=
-    match g with
-    | Some gv => let '(t, h') := fresh (length x) h in
-                 (t, st1 (fun a => lin one (- sigma) a gv) x t h')
-    | None => (x, h)                                                       (* diff = x   (no copy) *)
-    end in
-  let '(denom, h2) := pwnorm_call diff h1 in
-  let h3 := st1 (e1 (fun u => nmax u lam)) denom denom h2 in               (* denom.ufuncs.maximum(lam, out=denom) *)
-  let h4 := st1 (scal (one / lam)) denom denom h3 in                       (* denom /= lam *)
-  div_loop out diff denom h4.
-
-(* proj_l1(x, radius, out) *)
-Definition proj_l1 (radius : T) (x out : ref) (h : heap) : heap :=
-  let '(u, h1) := fresh (length x) h in
-  let h2 := st1 (e1 nabs) x u h1 in                                        (* u = x.ufuncs.absolute() *)
-  if sum_all (get h2 u) <=? radius then st1 (fun a => a) x out h2          (* out[:] = x *)
-  else
-    let '(v, h3) := fresh (length x) h2 in
-    let h4 := st1 (e1 nsign) x v h3 in                                     (* v = x.ufuncs.sign() *)
-    let h5 := st1 (simplex_val radius) u out h4 in                         (* proj_simplex(u, radius, out) *)
-    st2 (e2 nmul) out v out h5.                                            (* out *= v *)
-
-(* ProximalLInfty._call *)
-Definition call_linf (sigma : T) (x out : ref) (h : heap) : heap :=
-  let '(x', h1) := if ref_eqb x out then copy x h else (x, h) in
-  let h2 := proj_l1 sigma x' out h1 in
-  st2 (lin (- one) one) out x' out h2.                                     (* out.lincomb(-1, out, 1, x) *)
-
-(* ProximalConvexConjKL._call *)
-Definition call_cckl (lam sigma : T) (g : option val) (x out : ref) (h : heap) : heap :=
-  let '(x', h1) := if ref_eqb x out then copy x h
-                   else (x, st1 (fun a => a) x out h) in                   (* else: out.assign(x) *)
-  let h2 := st1 (e1 (fun u => u - lam)) out out h1 in                      (* out -= lam *)
-  let h3 := st1 (e1 (fun u => u * u)) out out h2 in                        (* out.ufuncs.square(out=out) *)
-  let h4 := match g with
-            | None => st1 (e1 (fun u => u + four * lam * sigma)) out out h3          (* out += 4.0 * lam * self.sigma *)
-            | Some gv => st1 (fun a => lin one (four * lam * sigma) a gv) out out h3 (* out.lincomb(1, out, 4.0*lam*sigma, g) *)
-            end in
-  let h5 := st1 (e1 nsqrt) out out h4 in                                   (* out.ufuncs.sqrt(out=out) *)
-  let h6 := st2 (lin one (- one)) x' out out h5 in                         (* out.lincomb(1, x, -1, out) *)
-  let h7 := st1 (e1 (fun u => u + lam)) out out h6 in                      (* out += lam *)
-  st1 (scal (one / two)) out out h7.                                       (* out /= 2 *)
-
-(* ProximalConvexConjKLCrossEntropy._call *)
-Definition call_ccklce (lam : T) (W : val -> val) (x out : ref) (h : heap) : heap :=
-  let '(lw, h1) := fresh (length x) h in
-  let h2 := st1 W x lw h1 in                                               (* lambw = x.space.element(lambertw(...x...)) *)
-  st2 (lin one (- lam)) x lw out h2.                                       (* out.lincomb(1, x, -lam, lambw) *)
-
-(* ProximalHuber._call, non-product domain *)
-Definition bmask (f : T -> bool) (v : val) : list (list bool) := map (map f) v.
-Definition call_huber (gamma sigma : T) (x out : ref) (h : heap) : heap :=
-  let '(nrm, h1) := fresh (length x) h in
-  let h2 := st1 (e1 nabs) x nrm h1 in                                      (* norm = x.ufuncs.absolute() *)
-  let m := bmask (fun u => u <=? gamma + sigma) (get h2 nrm) in            (* mask = norm.ufuncs.less_equal(gamma + sigma) *)
-  let h3 := st2 (fun a o => pwhere m (scal (gamma / (gamma + sigma)) a) o) x out out h2 in   (* out[mask] = gamma/(gamma+sigma) * x[mask] *)
-  let m' := map (map negb) m in                                            (* mask.ufuncs.logical_not(out=mask) *)
-  let '(sg, h4) := fresh (length x) h3 in
-  let h5 := st1 (e1 nsign) x sg h4 in                                      (* sign_x = x.ufuncs.sign() *)
-  st2 (fun a o => pwhere m' (lin one (- sigma) a (get h5 sg)) o) x out out h5.    (* out[mask] = x[mask] - sigma * sign_x[mask] *)
-
-Definition mult_val (m : sval) (a : val) : val :=
-  match m with Sc c => scal c a | El v => e2 (fun u w => w * u) a v end.
+| LFun (F : val -> val).                                (* any operator whose _call has no `out` (e.g. NuclearNorm proximal): F opaque *)
 
 Definition leaf_ip (l : leaf) (x out : ref) (h : heap) : heap :=
   match l with
@@ -341,39 +58,33 @@ Definition leaf_ip (l : leaf) (x out : ref) (h : heap) : heap :=
   | LL1 lam sigma g => call_l1 lam sigma g x out h
   | LL1L2 lam sigma g => call_l1l2 lam sigma g x out h
   | LLinf sigma => call_linf sigma x out h
-  | LCCLinf => proj_l1 one x out h                                        (* proj_l1(x, radius=1, out=out) *)
+  | LCCLinf => call_cclinf x out h
   | LCCKL lam sigma g => call_cckl lam sigma g x out h
   | LCCKLCE lam W => call_ccklce lam W x out h
-  | LHuber gamma sigma => call_huber gamma sigma x out h
-  | LSimplex d => st1 (simplex_val d) x out h                             (* proj_simplex(x, diameter, out) *)
-  | LScaling s => st1 (scal s) x out h                                    (* out.lincomb(self.scalar, x) *)
-  | LZero => st1 (scal nzero) x out h                                     (* out.lincomb(0, x) *)
-  | LConst c => st0 c out h                                               (* out.assign(self.constant) *)
-  | LMult m =>                                                            (* out.assign(self.multiplicand * x) *)
-      let '(t, h1) := fresh (length x) h in
-      let h2 := st1 (mult_val m) x t h1 in
-      st1 (fun a => a) t out h2
+  | LHuber ps gamma sigma => call_huber ps gamma sigma x out h
+  | LSimplex d => call_simplex d x out h
+  | LSumC s => call_sumc s x out h
+  | LScaling s => ip_ScalingOperator s x out h
+  | LZero => ip_ZeroOperator x out h
+  | LConst c => ip_ConstantOperator c x out h
+  | LMult m => ip_MultiplyOperator m x out h
   | LMat m => st1 (map (mvec m)) x out h                                  (* self.matrix.dot(x, out=out_arr) *)
   | LFun F =>                                  (* _default_call_in_place: out.assign(range.element(op._call_out_of_place(x))) *)
-      let '(t, h1) := fresh (length x) h in
-      let h2 := st1 F x t h1 in
-      st1 (fun a => a) t out h2
+      let '(t, h1) := un_new F x h in
+      st1 (fun a => a) t out h1
   end.
 
-(* out-of-place evaluation of a leaf.  The proximal classes have a mandatory
-   `out`, so Operator.__call__ goes through _default_call_out_of_place:
-   out = self.range.element(); self._call_in_place(x, out).  The default
-   operators build their result with element arithmetic (a new element). *)
+(* out-of-place evaluation of a leaf.  The proximal classes have a mandatory `out`, so Operator.__call__
+   goes through _default_call_out_of_place: out = self.range.element(); self._call_in_place(x, out). *)
 Definition leaf_oop (l : leaf) (x : ref) (h : heap) : ref * heap :=
-  let '(t, h1) := fresh (length x) h in
   match l with
-  | LScaling s => (t, st1 (scal s) x t h1)                                (* out = self.scalar * x *)
-  | LZero => (t, st1 (scal nzero) x t h1)                                 (* out = 0 * x *)
-  | LConst c => (t, st0 c t h1)                                           (* range.element(copy(constant)) *)
-  | LMult m => (t, st1 (mult_val m) x t h1)                               (* x * self.multiplicand *)
-  | LMat m => (t, st1 (map (mvec m)) x t h1)                              (* np.tensordot(self.matrix, x, ...) *)
-  | LFun F => (t, st1 F x t h1)                                           (* self._call(x) *)
-  | _ => (t, leaf_ip l x t h1)
+  | LScaling s => oop_ScalingOperator s x h
+  | LZero => oop_ZeroOperator x h
+  | LConst c => oop_ConstantOperator c x h
+  | LMult m => oop_MultiplyOperator m x h
+  | LMat m => un_new (map (mvec m)) x h                                   (* np.tensordot(self.matrix, x, ...) *)
+  | LFun F => un_new F x h                                                (* self._call(x) *)
+  | _ => let '(t, h1) := fresh (length x) h in (t, leaf_ip l x t h1)
   end.
 
 (* ------------------------------------------- value the call is supposed to have *)
@@ -381,8 +92,10 @@ Definition pure_l1 (lam : T) (sigma : sval) (g : option val) (v : val) : val :=
   let diff := match g with Some gv => lin one (- one) v gv | None => v end in
   let denom := e1 (fun u => nmax u one) (idiv_sval (e1 nabs diff) (sval_scale sigma lam)) in
   lin one (- one) v (e2 ndiv diff denom).
-Definition pure_ccl1 (lam sigma : T) (g : option val) (v : val) : val :=
-  let diff := match g with Some gv => lin one (- sigma) v gv | None => v end in
+Definition pure_ccl1 (lam : T) (sigma : sval) (g : option val) (v : val) : val :=
+  let diff := match g with
+              | Some gv => match sigma with Sc s => lin one (- s) v gv | El sv => lin one (- one) v (e2 nmul sv gv) end
+              | None => v end in
   e2 ndiv diff (scal (one / lam) (e1 (fun u => nmax u lam) (e1 nabs diff))).
 Definition pure_l2sq (lam : T) (sigma : sval) (g : option val) (v : val) : val :=
   match sigma, g with
@@ -415,7 +128,8 @@ Definition pure_l2 (w e1p lam sigma : T) (g : option val) (v : val) : val :=
         if step <? one then lin (one - step) step v gv else gv
       else gv
   end.
-Definition bdiv (v : val) (d : list T) : val := map (fun a => vmap2 ndiv a d) v.
+Definition bzip (f : T -> T -> T) (v : val) (d : list T) : val := map (fun a => vmap2 f a d) v.
+Definition bdiv : val -> list T -> val := bzip ndiv.
 Definition pure_l1l2 (lam sigma : T) (g : option val) (v : val) : val :=
   let diff := match g with Some gv => lin one (- one) v gv | None => v end in
   let denom := map (fun u => nmax u one) (map (fun u => (one / (sigma * lam)) * u) (pwnorm2 diff)) in
@@ -433,9 +147,11 @@ Definition pure_cckl (lam sigma : T) (g : option val) (v : val) : val :=
   let s' := match g with None => e1 (fun u => u + four * lam * sigma) s
                        | Some gv => lin one (four * lam * sigma) s gv end in
   scal (one / two) (e1 (fun u => u + lam) (lin one (- one) v (e1 nsqrt s'))).
-Definition pure_huber (gamma sigma : T) (v : val) : val :=
-  e1 (fun u => if nabs u <=? gamma + sigma then gamma / (gamma + sigma) * u
-               else one * u + (- sigma) * nsign u) v.
+Definition pure_huber (pspace : bool) (gamma sigma : T) (v : val) : val :=
+  let nrm := if pspace then [pwnorm2 v] else e1 nabs v in
+  let fac := e1 (fun n => if n <=? gamma + sigma then gamma / (gamma + sigma) else one - sigma / n) nrm in
+  if pspace then bzip nmul v (hd [] fac) else e2 nmul v fac.
+Definition pure_sumc (s : T) (v : val) : val := e1 (fun u => u + (one / nsize v) * (s - sum_all v)) v.
 
 Definition leaf_pure (l : leaf) (v : val) : val :=
   match l with
@@ -451,8 +167,9 @@ Definition leaf_pure (l : leaf) (v : val) : val :=
   | LCCLinf => pure_projl1 one v
   | LCCKL lam sigma g => pure_cckl lam sigma g v
   | LCCKLCE lam W => lin one (- lam) v (W v)
-  | LHuber gamma sigma => pure_huber gamma sigma v
+  | LHuber ps gamma sigma => pure_huber ps gamma sigma v
   | LSimplex d => simplex_val d v
+  | LSumC s => pure_sumc s v
   | LScaling s => scal s v
   | LZero => scal nzero v
   | LConst c => c
@@ -474,80 +191,34 @@ Inductive op :=
 | ORVec (a : op) (v : val)        (* OperatorRightVectorMult *)
 | ODiag (k : nat) (a b : op).     (* DiagonalOperator(a, b...) : a on the first k leaf arrays, b on the rest *)
 
+(* the bodies are the regenerated ip_<Class> / oop_<Class>; the children are passed as runners *)
 Fixpoint run_ip (e : op) (x out : ref) (h : heap) : heap :=
   match e with
   | OLeaf l => leaf_ip l x out h
-  | OSum a b =>
-      let '(tmp, h1) := fresh (length out) h in          (* tmp = self.range.element() *)
-      let h2 := run_ip a x tmp h1 in                     (* self.left(x, out=tmp) *)
-      let h3 := run_ip b x out h2 in                     (* self.right(x, out=out) *)
-      st2 (lin one one) out tmp out h3                   (* out += tmp *)
-  | OVecSum a v =>
-      let h1 := run_ip a x out h in                      (* self.operator(x, out=out) *)
-      st1 (fun o => lin one one o v) out out h1          (* out += self.vector *)
-  | OComp a b =>
-      let '(tmp, h1) := fresh (length x) h in            (* tmp = self.right.range.element() *)
-      let h2 := run_ip b x tmp h1 in                     (* self.right(x, out=tmp) *)
-      run_ip a tmp out h2                                (* self.left(tmp, out=out) *)
-  | OPw a b =>
-      let '(tmp, h1) := fresh (length out) h in
-      let h2 := run_ip a x tmp h1 in
-      let h3 := run_ip b x out h2 in
-      st2 (e2 nmul) out tmp out h3                       (* out *= tmp *)
-  | OLScal a s =>
-      let h1 := run_ip a x out h in
-      st1 (scal s) out out h1                            (* out *= self.scalar *)
-  | ORScal a s =>
-      let '(tmp, h1) := fresh (length x) h in            (* tmp = self.domain.element() *)
-      let h2 := st1 (scal s) x tmp h1 in                 (* tmp.lincomb(self.scalar, x) *)
-      run_ip a tmp out h2                                (* self.operator(tmp, out=out) *)
-  | OLVec a v =>
-      let h1 := run_ip a x out h in
-      st1 (fun o => e2 nmul o v) out out h1              (* out *= self.vector *)
-  | ORVec a v =>
-      let '(tmp, h1) := fresh (length x) h in
-      let h2 := st1 (fun a => e2 nmul a v) x tmp h1 in   (* x.multiply(self.vector, out=tmp) *)
-      run_ip a tmp out h2
+  | OSum a b => ip_OperatorSum (run_ip a) (run_ip b) x out h
+  | OVecSum a v => ip_OperatorVectorSum (run_ip a) v x out h
+  | OComp a b => ip_OperatorComp (run_ip a) (run_ip b) x out h
+  | OPw a b => ip_OperatorPointwiseProduct (run_ip a) (run_ip b) x out h
+  | OLScal a s => ip_OperatorLeftScalarMult (run_ip a) s x out h
+  | ORScal a s => ip_OperatorRightScalarMult (run_ip a) s x out h
+  | OLVec a v => ip_OperatorLeftVectorMult (run_ip a) v x out h
+  | ORVec a v => ip_OperatorRightVectorMult (run_ip a) v x out h
   | ODiag k a b =>                                       (* for i, j, op: op(x[j], out=out[i]) -- row by row *)
       let h1 := run_ip a (firstn k x) (firstn k out) h in
       run_ip b (skipn k x) (skipn k out) h1
   end.
 
-(* binary element arithmetic between two elements: a new element *)
-Definition bin_new (F : val -> val -> val) (a b : ref) (h : heap) : ref * heap :=
-  let '(t, h1) := fresh (length a) h in (t, st2 F a b t h1).
-Definition un_new (F : val -> val) (a : ref) (h : heap) : ref * heap :=
-  let '(t, h1) := fresh (length a) h in (t, st1 F a t h1).
-
 Fixpoint run_oop (e : op) (x : ref) (h : heap) : ref * heap :=
   match e with
   | OLeaf l => leaf_oop l x h
-  | OSum a b =>                                          (* self.left(x) + self.right(x) *)
-      let '(r1, h1) := run_oop a x h in
-      let '(r2, h2) := run_oop b x h1 in
-      bin_new (lin one one) r1 r2 h2
-  | OVecSum a v =>                                       (* self.operator(x) + self.vector *)
-      let '(r1, h1) := run_oop a x h in
-      un_new (fun o => lin one one o v) r1 h1
-  | OComp a b =>                                         (* self.left(self.right(x)) *)
-      let '(r1, h1) := run_oop b x h in
-      run_oop a r1 h1
-  | OPw a b =>                                           (* self.left(x) * self.right(x) *)
-      let '(r1, h1) := run_oop a x h in
-      let '(r2, h2) := run_oop b x h1 in
-      bin_new (e2 nmul) r1 r2 h2
-  | OLScal a s =>                                        (* self.scalar * self.operator(x) *)
-      let '(r1, h1) := run_oop a x h in
-      un_new (scal s) r1 h1
-  | ORScal a s =>                                        (* self.operator(self.scalar * x) *)
-      let '(t, h1) := un_new (scal s) x h in
-      run_oop a t h1
-  | OLVec a v =>                                         (* self.operator(x) * self.vector *)
-      let '(r1, h1) := run_oop a x h in
-      un_new (fun o => e2 nmul o v) r1 h1
-  | ORVec a v =>                                         (* self.operator(x * self.vector) *)
-      let '(t, h1) := un_new (fun a => e2 nmul a v) x h in
-      run_oop a t h1
+  | OSum a b => oop_OperatorSum (run_oop a) (run_oop b) x h
+  | OVecSum a v => oop_OperatorVectorSum (run_oop a) v x h
+  | OComp a b => oop_OperatorComp (run_oop a) (run_oop b) x h
+  | OPw a b => oop_OperatorPointwiseProduct (run_oop a) (run_oop b) x h
+  | OLScal a s => oop_OperatorLeftScalarMult (run_oop a) s x h
+  | ORScal a s => oop_OperatorRightScalarMult (run_oop a) s x h
+  | OLVec a v => oop_OperatorLeftVectorMult (run_oop a) v x h
+  | ORVec a v => oop_OperatorRightVectorMult (run_oop a) v x h
   | ODiag k a b =>                                       (* out = range.zero(); out[i] += op(x[j]) *)
       let '(z, h0) := fresh (length x) h in
       let h1 := st1 zeros_like x z h0 in
@@ -591,8 +262,5 @@ Definition o_quad_perturb (c : sval) (shift : option val) (prox : op) : op :=
   end.
 End M.
 
-Arguments heap : clear implicits.
 Arguments leaf : clear implicits.
 Arguments op : clear implicits.
-Arguments sval : clear implicits.
-Arguments bound : clear implicits.
